@@ -18,6 +18,7 @@ import vlib
 
 sys.path.insert(0, os.path.dirname(os.path.abspath(__file__)))
 import lockgen  # noqa: E402
+import lockgen_ast  # noqa: E402
 
 KINDS = ["pod", "str", "vec"]
 PROP_FILES = ("Properties.v", "PropertiesTVal.v", "LocksetProp.v")
@@ -124,7 +125,29 @@ def tsan_summary(err):
 def run(ctx):
     # ------------------------------------------------------------- (1) lock table from the source
     gen_v = os.path.join(ctx.coqdir, "gen", "Locks.v")
-    rows, info, changed = lockgen.generate(ctx.repo, gen_v)
+    # primary extractor: clang JSON AST (props/C12/lockgen_ast.py); the textual extractor (lockgen.py) is the cross-check
+    key = lambda r: (r["cls"], r["method"], r["line"], r["field"], bool(r["write"]), bool(r["atomic"]), r["lock"])
+    rows_txt, info = lockgen.analyse(ctx.repo)
+    try:
+        rows, info_ast = lockgen_ast.analyse(ctx.repo, os.path.join(ctx.build, "ast"))
+    except Exception as ex:                                            # noqa: BLE001
+        rows, info_ast = [], {"notes": ["lockgen_ast raised %r" % (ex,)], "clang_rc": -1}
+    ctx.cov["lock_table_extractor"] = {"clang_rc": info_ast.get("clang_rc"), "notes": info_ast.get("notes", [])[:5],
+                                       "ast_rows": len(rows), "textual_rows": len(rows_txt)}
+    if not rows:
+        ctx.broken.append("clang AST extraction of the lock table failed: %s" % "; ".join(str(n) for n in info_ast.get("notes", []))[:400])
+        rows = rows_txt
+    elif sorted(map(key, rows)) != sorted(map(key, rows_txt)):
+        only_a = sorted(set(map(key, rows)) - set(map(key, rows_txt)))
+        only_t = sorted(set(map(key, rows_txt)) - set(map(key, rows)))
+        ctx.broken.append("lock table: clang-AST and textual extractors disagree; only AST: %s; only textual: %s" % (only_a[:4], only_t[:4]))
+    rows = sorted(rows, key=lambda r: (r["file"], r["line"], r["field"], r["method"]))
+    txt = lockgen.to_coq(rows, ctx.repo).replace("GENERATED by props/C12/lockgen.py", "GENERATED by props/C12/lockgen_ast.py (clang JSON AST)")
+    os.makedirs(os.path.dirname(gen_v), exist_ok=True)
+    changed = (not os.path.exists(gen_v)) or open(gen_v).read() != txt
+    if changed:
+        with open(gen_v, "w") as f:
+            f.write(txt)
     for f in ("LocksetProp", os.path.join("gen", "Locks")):           # recompiled on every run
         for ext in (".vo", ".vos", ".vok", ".glob"):
             try:
@@ -266,6 +289,20 @@ def run(ctx):
         tsan_cfg += [("stressbuf", "pod", n, 100000, 0) for n in (3, 4, 6, 7)] + [("stressbuf", "vec", 8, 100000, 0),
                                                                                    ("stressbuf", "str", 6, 100000, 15)]
         asan_cfg += [("stressbuf", "str", 8, 100000, 0), ("stressbuf", "vec", 5, 100000, 5)]
+    # quiescent-observation runs: stressobs kind nprod bursts burstlen
+    nb = 3000 if q else 20000
+    tsan_cfg += [("stressobs", "pod", 4, nb, 4), ("stressobs", "str", 2, nb, 6), ("stressobs", "pod", 8, nb // 2, 2)]
+    asan_cfg += [("stressobs", "vec", 3, nb, 3)]
+    # targeted search for a concrete failing history when the lock table shows a member of the class touched outside the mutex
+    tb_suspect = bool(tb_unlocked) or any(a["cls"] == "TransactionalBuffer" for a, _ in conflicts)
+    tv_suspect = bool(tv_unlocked) or any(a["cls"] == "TransactionalValue" for a, _ in conflicts)
+    if tb_suspect:
+        tsan_cfg += [("stressobs", "pod", n, nb * 2, l) for n, l in ((2, 1), (3, 2), (6, 3), (8, 1))]
+        asan_cfg += [("stressobs", "pod", n, nb * 4, l) for n, l in ((2, 2), (4, 1), (8, 2))]
+    if tv_suspect:
+        tsan_cfg += [("stressval", k, big * 2, 0, sp) for k, sp in (("pod", 5), ("str", 0), ("pod", 60))]
+        asan_cfg += [("stressval", k, big * 4, 0, sp) for k, sp in (("pod", 0), ("pod", 25))]
+    ctx.cov["targeted_search"] = {"TransactionalBuffer": tb_suspect, "TransactionalValue": tv_suspect}
     jobs = [("tsan", h_tsan) + c for c in tsan_cfg] + [("asan", h_asan) + c for c in asan_cfg]
     tdir = os.path.join(ctx.build, "traces")
     os.makedirs(tdir, exist_ok=True)
@@ -278,12 +315,12 @@ def run(ctx):
             os.remove(tp)
         except OSError:
             pass
-        args = [mode, kind, str(a)] + ([str(b)] if mode == "stressbuf" else []) + [str(sp), tp]
+        args = [mode, kind, str(a)] + ([str(b)] if mode != "stressval" else []) + [str(sp), tp]
         rc, out, err = ctx.run_exe(exe, args, timeout=ctx.pick(150, 900))
         verdict = None
         if os.path.exists(tp):
             with open(tp) as f:
-                mrc, mout, merr = ctx.run_exe(model, ["tracebuf" if mode == "stressbuf" else "traceval"], stdin=f.read(), timeout=ctx.pick(150, 900))
+                mrc, mout, merr = ctx.run_exe(model, ["traceval" if mode == "stressval" else "tracebuf"], stdin=f.read(), timeout=ctx.pick(150, 900))
             verdict = mout.strip() if mrc == 0 else "model-driver-failed rc=%d %s" % (mrc, merr[-300:])
         return dict(name=name, san=san, args=args[:-1], cmd="%s %s" % (exe, " ".join(args)), rc=rc, out=out.strip(), err=err, verdict=verdict, trace=tp)
 
@@ -297,11 +334,14 @@ def run(ctx):
         out, rc, verdict = res_["out"], res_["rc"], res_["verdict"]
         stress_cov.append({"run": res_["name"], "rc": rc, "harness": out[:160], "model": (verdict or "")[:120]})
         conf = {"command": res_["cmd"], "sanitizer": res_["san"], "rc": rc,
-                "how_to_read": "stressbuf <payload> <producers> <pushes per producer> <spin>; stressval <payload> <assignments> <spin>"}
+                "how_to_read": "stressbuf <payload> <producers> <pushes per producer> <spin>; stressobs <payload> <producers> <bursts> <pushes per burst> (size()/empty() checked while all producers are parked); stressval <payload> <assignments> <spin>"}
         ok_line = out.startswith("OK")
         if ok_line:
             m = re.search(r"nonempty=(\d+).*multiproducer_batches=(\d+)", out)
             m2 = re.search(r"true_updates=(\d+).*quiescent_points=(\d+)", out)
+            m3 = re.search(r"overlapping_consumes=(\d+) nonempty_at_quiescence=(\d+)", out)
+            if m3 and int(m3.group(1)) > 0 and int(m3.group(2)) > 0:
+                ctx.nontriv("stress " + res_["name"])
             if (m and (int(m.group(2)) > 0 or (res_["args"][2] == "1" and int(m.group(1)) > 1))) or \
                     (m2 and int(m2.group(1)) > 1 and int(m2.group(2)) > 1):
                 ctx.nontriv("stress " + res_["name"])
@@ -339,17 +379,18 @@ def run(ctx):
         ctx.violation("lock discipline of the documented usage is broken: " + lock_findings[0],
                       {"findings": lock_findings, "lock_table": table,
                        "note": "no ThreadSanitizer report and no bad history were obtained in this run"}, found_input=False)
-    for res_ in results[:1] + results[7:8]:
+    for res_ in [r_ for r_ in results if r_["args"][0] == "stressbuf"][:1] + [r_ for r_ in results if r_["args"][0] == "stressval"][:1] + [r_ for r_ in results if r_["args"][0] == "stressobs"][:1]:
         ctx.sample({"stress": " ".join(res_["args"]), "sanitizer": res_["san"], "harness": res_["out"][:200], "model": res_["verdict"]})
 
     ctx.rule = ("sequential: random histories (<=60 ops, 1-8 producers; TransactionalValue <=40 ops) and all histories up to length %d over a 5/4-op "
                 "alphabet, each on trivially-copyable, std::string and std::vector<int> payloads, model vs real code; non-trivial = two non-empty "
                 "batches or a batch with >=2 elements / both update() results seen.  stress: %d multi-threaded runs (1-8 producers x up to %d pushes of "
                 "(producer,seq) with a consuming thread and a size()/empty() sampler; one producer assigning 1..N with quiescent points, one polling "
-                "consumer) under TSan and ASan, each recorded history judged by the extracted acceptance function and the harness oracle; non-trivial = "
+                "consumer; bursts of pushes separated by quiescent points at which size()/empty() must describe the next batch exactly) under TSan and ASan, each recorded history judged by the extracted acceptance function and the harness oracle; non-trivial = "
                 "batches mixing producers / >1 true update and >1 quiescent point" % (ctx.pick(5, 6), len(results), big))
-    ctx.trusted += ["props/C12/lockgen.py (textual extractor of member accesses, lock_guard scopes and std::atomic declarations from the two headers; "
-                    "conservative: anything not recognisably a read is a write)",
+    ctx.trusted += ["props/C12/lockgen_ast.py (member accesses, lock_guard/unique_lock scopes and std::atomic declarations from clang 14's JSON AST of the two "
+                    "headers' template patterns; conservative: anything not recognisably a read is a write; one lock per access, not inter-procedural), "
+                    "cross-checked on every run against the independent textual extractor props/C12/lockgen.py (disagreement = broken)",
                     "ThreadSanitizer / AddressSanitizer of g++ 12 as the runtime witnesses for data races and payload lifetime",
                     "harness/C12/harness.cpp (stress driver, history recorder, independent oracle), generators in props/C12/check.py",
                     "std::mutex / std::lock_guard provide mutual exclusion, std::atomic<bool> accesses are atomic; std::vector move leaves the source empty "
